@@ -29,7 +29,9 @@ fn big_shape(n: usize, aux: bool, seed: u64) -> Arc<Shape> {
     Arc::new(Shape {
         name: format!("c06/n{n}/aux{}", aux as u8),
         n,
-        cols: vec![Rule::Pow { d: 2, k: 1 }, Rule::Mul { p: 0 }, Rule::Reset { d: 1, p: 1, v: 9 }],
+        // the last column multiplies by the long periodic column: a main constraint whose periodic
+        // values differ between the parallel fragments of the constraint evaluation table
+        cols: vec![Rule::Pow { d: 2, k: 1 }, Rule::Mul { p: 0 }, Rule::Reset { d: 1, p: 1, v: 9 }, Rule::MulPer { d: 1, p: 2 }],
         // the last column (cycle n/2, longer than any parallel fragment) is the one the auxiliary rule reads
         periodic: vec![Periodic { values: vec![3, 5, 7, 11] }, Periodic { values: vec![1, 1, 1, 0, 1, 1, 1, 1] }, Periodic { values: (0..n as u64 / 2).map(|i| i * i + 1).collect() }],
         aux: if aux { Some((2, 2)) } else { None },
@@ -54,7 +56,7 @@ pub fn instances(thorough: bool) -> Vec<Inst> {
         c.rate = parts.1;
         let s = big_shape(n, aux, 1);
         // constraint evaluation in fragments starts at 8192 rows: those instances run the thread-count sweep only
-        let light = aux && n >= 4096;
+        let light = n == 4096 && q == 8;
         v.push(Inst { key: format!("{}@{}", s.name, c.short()), shape: s, cfg: c, light });
     };
     // straddle the thresholds: FFT / segment 1024, Merkle 1024 leaves, batch_iter_mut 1024*T, transpose 1024
@@ -62,6 +64,7 @@ pub fn instances(thorough: bool) -> Vec<Inst> {
     add(512, true, Fid::F64, Hid::Blake3_256, 8, 2, 12, 0, (2, 4));
     // auxiliary constraints evaluated in fragments (constraint evaluation domain 8192)
     add(4096, true, Fid::F64, Hid::Blake3_256, 2, 1, 8, 0, (1, 1));
+    add(4096, false, Fid::F64, Hid::Blake3_256, 2, 1, 8, 0, (1, 1));
     if thorough {
         add(256, false, Fid::F64, Hid::Blake3_256, 4, 1, 8, 0, (1, 1)); // everything below the thresholds
         add(2048, true, Fid::F128, Hid::Sha3_256, 2, 2, 20, 2, (1, 1));
